@@ -26,7 +26,7 @@ PROPS = {
         not_covered='that evaluate() feeds new/give/finish in order and evaluates each operand once; the one-operator fast path and ChainSection; try_chain tables of the builtins',
     ),
     'C06': dict(
-        units=['nint', 'nnum', 'builtins'],
+        units=['nint', 'nnum', 'builtins', 'nnumcmp'],
         not_covered='lazy_is_prime / lazy_factorize / even / odd; literal parsing',
     ),
     'C08': dict(
